@@ -8,6 +8,8 @@ CONSTANTS
   FixDone = TRUE
   FixPublish = TRUE
   FixStats = TRUE
+  AtomicAdd = TRUE
+  TakeRegistry = TRUE
   Det = TRUE
   MaxRetry = 1
   LateCalls = TRUE
